@@ -13,7 +13,7 @@ RULE = ("cases: seeded operator specs (every class at the root, nestings to dept
         "matrix position} of length <= ndim, debug on/off, plus diagonal(); oracle: the same index applied by torch to the "
         "dense matrix (value, shape); explicit not-supported errors are accepted and counted. Failing cases are shrunk "
         "(components -> ':' while the failure persists; operator -> Dense) before fingerprinting. distinct key = (root class, "
-        "index-kind signature, batch rank, debug)")
+        "index-kind signature, batch rank, debug) [round 4: 3-d batches; Cat along any batch dimension]")
 ASSUMPTIONS = ["torch indexing of the dense tensor is the specification", "lomon/model.py denotation table",
                "explicit not-supported = raise statement inside linear_operator with NotImplementedError or a declared-unsupported message"]
 REQUIRED_STATS = ("indexed",)
